@@ -696,7 +696,7 @@ def run_part(ck, quick=True, site_class=None):
 
     rng = ck.rng.fork("lmmt")
     n_progs, n_mut, n_samples = (1000, 3, 4) if quick else (6000, 4, 6)
-    cases3 = lmmx_gen.gen_cases(rng, n_progs, n_samples, tag="lmmt", dyn_share=0)
+    cases3 = lmmx_gen.gen_cases(rng, n_progs, n_samples, tag="lmmt", dyn_share=0, ext=False)
     items = []          # (kind | None, prog, rows)
     for i, (p, rows, _) in enumerate(cases3):
         items.append((None, p, rows))
